@@ -44,6 +44,8 @@ InvalidFormat: ...
 ['ssn', 'ein', 'atin']
 >>> format('042103594')
 '042-10-3594'
+>>> format('p-00639142')  # a PTIN has no separate presentation format
+'P00639142'
 >>> format('123-456')  # invalid numbers are not reformatted
 '123-456'
 """
@@ -93,6 +95,8 @@ def guess_type(number):
 def format(number):
     """Reformat the number to the standard presentation format."""
     for mod in _tin_modules:
-        if mod.is_valid(number) and hasattr(mod, 'format'):
-            return mod.format(number)
+        if mod.is_valid(number):
+            if hasattr(mod, 'format'):
+                return mod.format(number)
+            return mod.validate(number)
     return number
